@@ -105,6 +105,17 @@ impl IpDefragBuf {
                     conflicting_end: end,
                 });
             }
+        } else if false == more_fragments {
+            // the end is not yet known: the last fragment is not allowed to
+            // end in front of data that was already received
+            if let Some(received_end) = self.sections.iter().map(|s| s.end).max() {
+                if end < received_end {
+                    return Err(ConflictingEnd {
+                        previous_end: received_end,
+                        conflicting_end: end,
+                    });
+                }
+            }
         }
 
         // get enough memory to store the de-fragmented
